@@ -127,7 +127,20 @@ func (x *Exec) call(s *State, fr *Frame, call *ast.CallExpr) Value {
 			}
 		}
 		args := x.args(s, fr, call, fn.Type().(*types.Signature))
-		res = x.invoke(s, fr, fn, recv, recvT, args, call)
+		havoc := false
+		if cf := x.contractFrame(fr); cf != nil && x.spec == 0 {
+			for _, t := range cf.contract.HavocCalls {
+				if t == callText {
+					havoc = true
+				}
+			}
+		}
+		if havoc {
+			x.note("assumed", "preconditions of "+fullName(fn)+" are not checked at the call "+callText+" (treated as unknown code there)")
+			res = x.havocCall(s, fr, fn.Origin(), fn.Type().(*types.Signature), args, call)
+		} else {
+			res = x.invoke(s, fr, fn, recv, recvT, args, call)
+		}
 	} else {
 		// function value
 		fvv := x.expr(s, fr, call.Fun)
@@ -586,7 +599,7 @@ func (x *Exec) ownStateCall(s *State, fr *Frame, fn *types.Func, sig *types.Sign
 		case fv.Lit != nil:
 			ws := &writeSet{vars: map[types.Object]bool{}, mems: map[string]bool{}}
 			x.scanWrites(fv.Lit.info, fv.Lit.lit.Body, ws, map[*types.Func]bool{}, 0)
-			if ws.all || len(ws.mems) > 0 {
+			if ws.all || ws.foreign || len(ws.mems) > 0 {
 				return nil, false
 			}
 			for o := range ws.vars {
@@ -660,6 +673,13 @@ func (x *Exec) havocCall(s *State, fr *Frame, fn *types.Func, sig *types.Signatu
 		x.note("abstracted", name+" (result unknown, no effect on tracked state)")
 	} else if x.syntacticallyPure(fn) {
 		x.note("abstracted", name+" (no contract; writes no memory syntactically: result unknown, memory unchanged)")
+	} else if ws := x.calleeWrites(fr, fn, call); ws != nil && !ws.all {
+		x.applyCalleeWrites(s, ws, name)
+		if ws.foreign {
+			x.note("abstracted", name+" (result unknown; memory forgotten except private fields of structs it is not handed)")
+		} else {
+			x.note("abstracted", name+" (result unknown; the memories its body may write are forgotten)")
+		}
 	} else {
 		x.note("abstracted", name+" (result unknown, all memory forgotten)")
 		x.havocAllMem(s, "call to "+name)
@@ -679,7 +699,7 @@ func (x *Exec) syntacticallyPure(fn *types.Func) bool {
 	}
 	ws := &writeSet{vars: map[types.Object]bool{}, mems: map[string]bool{}}
 	x.scanWrites(d.Pkg.TypesInfo, d.Decl.Body, ws, map[*types.Func]bool{fn: true}, 0)
-	return !ws.all && len(ws.mems) == 0
+	return !ws.all && !ws.foreign && len(ws.mems) == 0
 }
 
 func (x *Exec) inlinable(fn *types.Func) bool {
@@ -965,6 +985,9 @@ func (x *Exec) modularCall(s *State, fr *Frame, c *Contract, recv Value, args []
 		for _, a := range c.Assigns {
 			x.havocLvalue(s, nf, a.Expr, strings.HasSuffix(a.Text, "[*]"))
 		}
+	} else if ws := x.calleeWrites(fr, c.Fn, call); ws != nil && !ws.all {
+		// no assigns clause: what the body may write, syntactically
+		x.applyCalleeWrites(s, ws, name)
 	} else {
 		x.havocAllMem(s, "callee "+name+" has no assigns clause")
 	}
@@ -1047,7 +1070,7 @@ func (x *Exec) modularCall(s *State, fr *Frame, c *Contract, recv Value, args []
 func (x *Exec) writesHeap(c *Contract) bool {
 	ws := &writeSet{vars: map[types.Object]bool{}, mems: map[string]bool{}}
 	x.scanWrites(c.Pkg.TypesInfo, c.Body, ws, map[*types.Func]bool{c.Fn: true}, 0)
-	return ws.all || len(ws.mems) > 0
+	return ws.all || ws.foreign || len(ws.mems) > 0
 }
 
 // havocLvalue forgets the location(s) denoted by an assigns entry.
